@@ -397,7 +397,11 @@ fn receiver_actor(
                 RCmd::SetMaxData { n } => rxp.set_max_data_size(n),
                 RCmd::Probe { k } => {
                     let (mon, to_return) = rxp.verif_credits();
-                    let (used, limit) = mon.unwrap_or((0, 0));
+                    // the buffer monitor is gone once the dispatcher has ended: no limit to compare with
+                    let (used, limit) = match mon {
+                        Some((u, l)) => (u.to_string(), l.to_string()),
+                        None => ("none".to_string(), "none".to_string()),
+                    };
                     done(&pending, &k, format!("probe queue={} used={} limit={} toreturn={}", rxp.verif_queue_len(), used, limit, to_return));
                 }
                 RCmd::Forward { k, tx, cancel } => {
